@@ -2115,3 +2115,53 @@ func ruleNameOwner(p *Prog, r *Result) {
 	}
 	r.floor("reads of the field caches by name in the projection", n, 2)
 }
+
+// ---------------- AGGRDETECT ----------------
+
+func init() {
+	register("AGGRDETECT", "a select statement in which an aggregate call was found is planned as an aggregate statement: in the final-plan builder, after the true outcome of the test that finds an aggregate call in a select field, no way leads to the construction of a ProjectionPlan (the possible values of the Boolean locals are followed edge by edge: a later assignment that can make the flag false again leaves that way open)", ruleAggrDetect)
+}
+
+func ruleAggrDetect(p *Prog, r *Result) {
+	fn := p.MethodByName("Optimizer", "buildFinalPlan")
+	isAggr := p.Func("IsAggrFuncExpr")
+	if fn == nil || isAggr == nil {
+		r.undecided("anchor: (*Optimizer).buildFinalPlan / IsAggrFuncExpr not found")
+		return
+	}
+	reachesDetect := func(g *ssa.Function) bool {
+		for _, h := range p.staticClosure(g, 3, nil) {
+			if h == isAggr {
+				return true
+			}
+		}
+		return false
+	}
+	n := 0
+	for _, b := range fn.Blocks {
+		f := ifOf(b)
+		if f == nil {
+			continue
+		}
+		c, ok := f.Cond.(*ssa.Call)
+		if !ok {
+			continue
+		}
+		g := c.Call.StaticCallee()
+		if g == nil || !p.InPkg(g) || !reachesDetect(g) {
+			continue
+		}
+		n++
+		reached := exploreAfterFailure(fn, b, b.Succs[0], map[ssa.Value]int{c: 2})
+		bad := ""
+		for _, rb := range orderedBlocks(fn, reached) {
+			for _, in := range rb.Instrs {
+				if al, ok := in.(*ssa.Alloc); ok && typeName(deref(al.Type())) == "ProjectionPlan" {
+					bad = "a ProjectionPlan can still be built at " + p.InstrPos(al)
+				}
+			}
+		}
+		r.add(bad == "", fmt.Sprintf("(*Optimizer).buildFinalPlan|found#%d", n), p.InstrPos(f), firstNonEmpty(bad, "once an aggregate call was found the statement cannot be planned as a plain projection"))
+	}
+	r.floor("aggregate detection tests in buildFinalPlan", n, 1)
+}
